@@ -310,3 +310,33 @@ fn match_events_pref(
     }
     Ok(ids)
 }
+
+/// as `match_events`, when it is known exactly which events were live at the moment the fragment was written: only those
+/// qualify, whatever happened to them afterwards, oldest first
+pub fn match_events_among(
+    ledger: &Ledger,
+    events: &[&Meas],
+    allowed: &std::collections::BTreeSet<u64>,
+) -> Result<Vec<u64>, usize> {
+    let mut ids: Vec<u64> = Vec::new();
+    for (i, m) in events.iter().enumerate() {
+        let candidates: Vec<&LedgerEvent> = ledger
+            .events
+            .values()
+            .filter(|e| allowed.contains(&e.id))
+            .filter(|e| !ids.contains(&e.id))
+            .filter(|e| Ledger::matches(e, m))
+            .collect();
+        let last = ids.last().copied();
+        let found = candidates
+            .iter()
+            .find(|e| last.map(|l| e.id > l).unwrap_or(true))
+            .or_else(|| candidates.first())
+            .copied();
+        match found {
+            Some(e) => ids.push(e.id),
+            None => return Err(i),
+        }
+    }
+    Ok(ids)
+}
